@@ -5271,10 +5271,16 @@ fn write_section_headers(out: &mut [u8], layout: &ElfLayout) -> Result {
         // TODO: Sections are always uncompressed and the output compression is not supported yet.
         entry.sh_flags.set(
             e,
-            output_sections
-                .section_flags(section_id)
-                .without(shf::COMPRESSED)
-                .raw(),
+            if section_type == sht::NULL {
+                // The gABI requires everything except sh_size and sh_link of the null section
+                // header to be zero.
+                0
+            } else {
+                output_sections
+                    .section_flags(section_id)
+                    .without(shf::COMPRESSED)
+                    .raw()
+            },
         );
 
         let name = layout.output_sections.name(section_id).with_context(|| {
@@ -5307,7 +5313,7 @@ fn write_section_headers(out: &mut [u8], layout: &ElfLayout) -> Result {
 
         entry.sh_addr.set(
             e,
-            if layout.symbol_db.args.should_output_partial_object() {
+            if layout.symbol_db.args.should_output_partial_object() || section_type == sht::NULL {
                 0
             } else {
                 section_layout.mem_offset
